@@ -58,7 +58,7 @@ def baseline_keys(pid, repo="/repo"):
     return {(r.key, r.status) for r in res if r.status != "PASS"}
 
 
-def run_mutant(pid, patch, repo="/repo", keep=False):
+def run_mutant(pid, patch, repo="/repo", keep=False, base=None):
     """Returns dict(status=caught|missed|skipped|invalid, fired=[...])."""
     tmp = tempfile.mkdtemp(prefix="verif-mut-")
     try:
@@ -80,6 +80,17 @@ def run_mutant(pid, patch, repo="/repo", keep=False):
         mod = importlib.import_module(pid.lower())
         res = mod.M.run(Ctx(Facts(out), None, "quick", tmp))
         fired = [r for r in res if r.status != "PASS"]
+        if base is not None and not [x for x in fired if (x.key, x.status) not in base]:
+            # nothing new under the default features: the change may live under cfg(feature = "unstable")
+            shared_u = os.path.join(factbase.CACHE, "target-unstable")
+            tdir_u = os.path.join(tmp, "target-u")
+            if os.path.isdir(shared_u):
+                _sh("cp -al %s %s" % (shared_u, tdir_u))
+            out_u = os.path.join(tmp, "facts-u.json")
+            ok, log = factbase.generate(tmp, "unstable", out_u, tdir_u)
+            if ok:
+                res_u = mod.M.run(Ctx(Facts(out_u), None, "quick", tmp))
+                fired += [r for r in res_u if r.status != "PASS"]
         return {"status": "ran", "fired": fired}
     finally:
         if not keep:
@@ -97,7 +108,7 @@ def run_for(pid, verbose=False, repo="/repo"):
     def work(m):
         kind, name, patch, hdr = m
         try:
-            r = run_mutant(pid, patch, repo)
+            r = run_mutant(pid, patch, repo, base=base)
         except Exception as e:  # noqa
             r = {"status": "invalid", "why": repr(e)}
         return m, r
@@ -143,9 +154,9 @@ if __name__ == "__main__":
     pid = sys.argv[1]
     sys.path.insert(0, os.path.dirname(os.path.abspath(__file__)))
     if len(sys.argv) > 2:
-        r = run_mutant(pid, sys.argv[2])
+        base = baseline_keys(pid)
+        r = run_mutant(pid, sys.argv[2], base=base)
         if r["status"] == "ran":
-            base = baseline_keys(pid)
             for x in r["fired"]:
                 print(("NEW  " if (x.key, x.status) not in base else "base ") + x.status, x.rule, x.key, "—", x.msg[:200], x.where)
             if not r["fired"]:
